@@ -14,6 +14,9 @@ import LokiModel.Fir.Syntax
 * `mergeStmts` — `MergeAssociatesTransformer`: a binding whose selector's root name is not bound by the parent block moves to
   the parent (duplicates of identical pairs dropped), bottom-up, so bindings bubble up to the outermost block.
   `max_parents` counts derived-type parents; FIR has no derived types, so it never filters (not modelled).
+  Since the `fix:` commit that rebuilds the outermost block with its parent scope, merging followed by resolving
+  (`Mode.both`) is simply the composition (before, `start_depth = 0` raised IndexError whenever a block contained an
+  intrinsic function reference: former class `merge_resolve_crash`).
 * `flags` — decidable known-finding classes (mirrored by `harness/props/c29.py: classify`), `transform` — the whole thing with
   the crashes of the real code as errors.
 Core Lean only.
@@ -243,28 +246,6 @@ def subVars : Ex → List String
   | .sec _ dims => dimsVars dims
   | e => exVars e
 
-mutual
-def hasCall : Ex → Bool
-  | .lit _ => false
-  | .var _ => false
-  | .idx _ subs => hasCalls subs
-  | .sec _ dims => hasCallD dims
-  | .neg a => hasCall a
-  | .not a => hasCall a
-  | .bin _ a b => hasCall a || hasCall b
-  | .call _ _ => true
-def hasCalls : List Ex → Bool
-  | [] => false
-  | e :: es => hasCall e || hasCalls es
-def hasCallD : List Dim → Bool
-  | [] => false
-  | .at e :: ds => hasCall e || hasCallD ds
-  | .rng lo hi st :: ds => hasCallO lo || hasCallO hi || hasCallO st || hasCallD ds
-def hasCallO : Option Ex → Bool
-  | none => false
-  | some e => hasCall e
-end
-
 def oList : Option Ex → List Ex
   | none => []
   | some e => [e]
@@ -469,23 +450,6 @@ def flagsV (decls : List Decl) (frames : List Fr) (s : Stmt) : List String :=
   (if (visited s).any (fun e => (exVars e).any (badUse frames)) then ["value_of_value_crash"] else [])
 end
 
-mutual
-/-- an intrinsic function reference in a visited expression inside some associate block -/
-def callInAssocS (inside : Bool) : Stmt → Bool
-  | .assoc _ body => callInAssocL true body
-  | .doLoop v lo hi st body => (inside && (visited (.doLoop v lo hi st [])).any hasCall) || callInAssocL inside body
-  | .while c body => (inside && hasCall c) || callInAssocL inside body
-  | .ifte c t e => (inside && hasCall c) || callInAssocL inside t || callInAssocL inside e
-  | .select e cs d => (inside && hasCall e) || callInAssocC inside cs || callInAssocL inside d
-  | s => inside && (visited s).any hasCall
-def callInAssocL (inside : Bool) : List Stmt → Bool
-  | [] => false
-  | s :: ss => callInAssocS inside s || callInAssocL inside ss
-def callInAssocC (inside : Bool) : List (List Int × List Stmt) → Bool
-  | [] => false
-  | (_, body) :: cs => callInAssocL inside body || callInAssocC inside cs
-end
-
 def distinctNames : List String → Bool
   | [] => true
   | x :: xs => !(xs.contains x) && distinctNames xs
@@ -537,12 +501,11 @@ def Mode.resolves : Mode → Bool
 def flagsUnit (its : Intents) (m : Mode) (sd : Nat) (u : Fir.Unit) : List String :=
   let mf := if m.merges then mflagsL its none u.body else []
   if mf.contains "merge_crash" then ["merge_crash"] else
-  if m == .both && sd == 0 && callInAssocL false u.body then ["merge_resolve_crash"] else
   let body := if m.merges then (mergeStmts none u.body).1 else u.body
   let rf := if m.resolves then flagsL u.decls its sd 1 [] body else []
   if rf.contains "value_of_value_crash" then ["value_of_value_crash"] else mf ++ rf
 
-def isCrash (f : String) : Bool := f == "merge_crash" || f == "merge_resolve_crash" || f == "value_of_value_crash"
+def isCrash (f : String) : Bool := f == "merge_crash" || f == "value_of_value_crash"
 
 /-- units are transformed in order; the first crash ends the run -/
 def flagsUnits (its : Intents) (m : Mode) (sd : Nat) : List Fir.Unit → List String
@@ -566,8 +529,7 @@ def transformBody (m : Mode) (sd : Nat) (body : List Stmt) : List Stmt :=
 /-- the whole transformation: the crashes of the real code are errors (named like the Python exception) -/
 def transform (m : Mode) (sd : Nat) (p : Program) : Except String Program :=
   let f := flags m sd p
-  if f.contains "merge_resolve_crash" then .error "indexerror"
-  else if f.contains "merge_crash" || f.contains "value_of_value_crash" then .error "attributeerror"
+  if f.contains "merge_crash" || f.contains "value_of_value_crash" then .error "attributeerror"
   else .ok { p with units := p.units.map fun u => { u with body := transformBody m sd u.body } }
 
 end LokiModel.C29
